@@ -1,6 +1,7 @@
 package scn
 
 import (
+	"bytes"
 	"encoding/json"
 	"errors"
 	"fmt"
@@ -352,6 +353,26 @@ func (w *c12world) sweepAgreement(after string) {
 		return
 	}
 	c.S.Probe("agreement_swept_faultfree")
+}
+
+// soloRules: memory/store agreement clauses that need no reference to expiry, for a call that ran
+// alone on a single node in a run without any fault so far. A released subscriber is no longer
+// recorded in the store (whatever Release returned: nothing failed, so nothing excuses a record
+// that a restart would load); a Renew that was refused has not touched the subscriber's record.
+func (w *c12world) soloRules(r *c12opres, rawBefore []byte) {
+	c := w.c
+	if len(w.slots) != 1 || w.st.perturbed || c.Failed() || !r.done || !r.slot.up || r.slot.tok.Dead() {
+		return
+	}
+	raw := w.st.data[c12key(r.sub)]
+	switch {
+	case r.kind == "release" && raw != nil:
+		c.Fail("memory-store-agreement", fmt.Sprintf("agree/%s/record-survives-release", w.modeName()),
+			"no fault has fired: Release(%s) returned %v, yet the store still records %s for it (a restart would load that record)", r.sub, r.err, c12recPrefix(raw))
+	case r.kind == "renew" && r.err != nil && !bytes.Equal(raw, rawBefore):
+		c.Fail("memory-store-agreement", fmt.Sprintf("agree/%s/record-changed-by-refused-renew", w.modeName()),
+			"no fault has fired: Renew(%s) was refused (%v), yet it changed the subscriber's store record from %q to %q", r.sub, r.err, rawBefore, raw)
+	}
 }
 
 // checkInnerJSON: oracle (4) on the allocator state the distributed paths reached.
